@@ -1,6 +1,7 @@
 package main
 
 import (
+	"sort"
 	"sync"
 	"github.com/zmap/zlint/v3/formattedoutput"
 	"os"
@@ -333,6 +334,85 @@ func init() {
 			}
 		}
 		out.Data["listing_names"] = lineNames
+		// the same for registries narrowed by a filter: every kind alone, every pair of kinds, every source, random options
+		{
+			var fspecs []FilterSpec
+			first := func(l []string) string {
+				if len(l) > 0 {
+					return l[0]
+				}
+				return ""
+			}
+			var certN, crlN, ocspN []string
+			for _, l := range g.CertificateLints().Lints() {
+				certN = append(certN, l.Name)
+			}
+			for _, l := range g.RevocationListLints().Lints() {
+				crlN = append(crlN, l.Name)
+			}
+			for _, l := range g.OcspResponseLints().Lints() {
+				ocspN = append(ocspN, l.Name)
+			}
+			for _, set := range [][]string{{first(certN)}, {first(crlN)}, {first(ocspN)}, {first(certN), first(crlN)}, {first(certN), first(ocspN)}, {first(crlN), first(ocspN)}, crlN, ocspN, append(append([]string{}, crlN...), ocspN...)} {
+				ok := true
+				for _, n := range set {
+					if n == "" {
+						ok = false
+					}
+				}
+				if ok {
+					fspecs = append(fspecs, FilterSpec{IncludeNames: set})
+				}
+			}
+			var srcs []string
+			for _, sc := range g.Sources() {
+				srcs = append(srcs, string(sc))
+				fspecs = append(fspecs, FilterSpec{IncludeSources: []string{string(sc)}}, FilterSpec{ExcludeSources: []string{string(sc)}})
+			}
+			sort.Strings(srcs)
+			fspecs = append(fspecs, FilterSpec{Regex: "crl"}, FilterSpec{Regex: "ocsp"}, FilterSpec{Regex: "^w_"}, FilterSpec{Regex: "^$"})
+			frng := NewRng(seedFromEnv(), "c14-filters")
+			nRand := 30
+			if tier() == "thorough" {
+				nRand = 400
+			}
+			for i := 0; i < nRand; i++ {
+				fspecs = append(fspecs, randomFilterSpec(frng, g.Names(), srcs, i%2 == 0))
+			}
+			listings := 0
+			for _, f := range fspecs {
+				fr, err := g.Filter(f.opts())
+				if err != nil {
+					continue
+				}
+				listings++
+				var b bytes.Buffer
+				fr.WriteJSON(&b)
+				var got []string
+				for _, ln := range strings.Split(strings.TrimRight(b.String(), "\n"), "\n") {
+					if ln == "" {
+						continue
+					}
+					var m struct {
+						Name   string          `json:"name"`
+						Source lint.LintSource `json:"source"`
+					}
+					if err := json.Unmarshal([]byte(ln), &m); err != nil {
+						out.Violate("C14|filtered-listing-line-undecodable", fmt.Sprintf("a line of the listing of the registry filtered with %+v does not decode: %v", f, err), f, nil, ln)
+						continue
+					}
+					got = append(got, m.Name)
+				}
+				sort.Strings(got)
+				want := append([]string{}, fr.Names()...)
+				sort.Strings(want)
+				if strings.Join(got, ",") != strings.Join(want, ",") {
+					out.Violate("C14|filtered-listing", fmt.Sprintf("the listing of the registry filtered with %+v has %d lines for %d registered lints (first difference: %s)", f, len(got), len(want), firstDiffLine(strings.Join(want, "\n"), strings.Join(got, "\n"))),
+						f, len(want), len(got))
+				}
+			}
+			out.Stats["filtered_listings"] = listings
+		}
 		out.Data["entries_coq"] = coqRegistryEntries(info)
 		return out.Emit()
 	}
